@@ -55,6 +55,10 @@ type Link struct {
 	env  *Env
 	Name string
 	Cfg  LinkCfg
+	// PreWriteYield: a scheduling point at the entry of every write, so that the
+	// scheduler can place other tasks between a sender's last check and the moment
+	// its envelope reaches the transport (set by families that look at that window)
+	PreWriteYield bool
 
 	mu       sync.Mutex
 	inflight []*pendingWrite
@@ -342,6 +346,9 @@ func cloneRpc(r *Rpc) *Rpc {
 }
 
 func (l *Link) write(ctx context.Context, rpc *Rpc) error {
+	if l.PreWriteYield && !l.env.Free {
+		l.env.Pt("link.write")
+	}
 	l.mu.Lock()
 	l.nAttempts++
 	l.mu.Unlock()
